@@ -5,7 +5,7 @@ import itertools
 
 import numpy as np
 
-from checks.common import hash_tag, relayout
+from checks.common import hash_tag, relayout, xf_build, xf_names
 from qmc import gen as G
 from qmc import oracle as O
 from qmc.loader import load
@@ -55,6 +55,14 @@ def cases(tier, seed):
             out.append({"key": f"special/{kind}/n={n}", "grp": "special", "kind": kind, "n": n, "row": 0})
         for mask in G.COMPONENT_MASKS:
             out.append({"key": f"compmask/n={n}/{G.mask_name(mask)}", "grp": "compmask", "n": n, "mask": mask, "row": 0})
+    for n in range(2, N + 2):
+        for nm in xf_names(n, n):
+            if nm.startswith("cm:") or nm.startswith("sp:") or nm.startswith("lay:"):
+                continue  # covered by the compmask / special / layout groups above
+            out.append({"key": f"xf/n={n}/{nm}", "grp": "xf", "n": n, "xf": nm, "row": 0})
+        for nm in xf_names(n, n, hermitian=True):
+            if not nm.startswith("lay:"):
+                out.append({"key": f"xfh/n={n}/{nm}", "grp": "xfh", "n": n, "xf": nm, "row": 0})
     for n in (8, 9, 12, 17):
         for st in ("generic", "hermitian", "hess", "ints"):
             out.append({"key": f"{st}/n={n}/large", "grp": "struct", "st": st, "n": n, "row": 0})
@@ -115,6 +123,8 @@ def make(case, seed):
         for i in range(n):
             A[i, : max(i - case["p"], 0)] = 0.0
         return A
+    if grp in ("xf", "xfh"):
+        return xf_build(case["xf"], n, n, fill, hermitian=(grp == "xfh"))[0]
     if grp == "special":
         return G.special(case["kind"], n, fill)
     if grp == "compmask":
